@@ -137,7 +137,7 @@ func (e *executor) executeQuery(initialValue any) (*OrderedMap, []*Error) {
 
 func (e *executor) executeMutation(initialValue any) (*OrderedMap, []*Error) {
 	mutationType := e.Schema.MutationType()
-	if !schema.IsObjectType(mutationType) {
+	if mutationType == nil || !mutationType.RequiredFeatures.IsSubsetOf(e.Features) {
 		return nil, []*Error{newError(e.Operation, "This schema cannot perform mutations.")}
 	}
 	if data, err := wait(e, e.executeSelections(e.Operation.SelectionSet.Selections, mutationType, initialValue, nil, true)); err != nil {
@@ -151,7 +151,7 @@ func (e *executor) executeMutation(initialValue any) (*OrderedMap, []*Error) {
 
 func (e *executor) subscribe(initialValue any) (any, *Error) {
 	subscriptionType := e.Schema.SubscriptionType()
-	if !schema.IsObjectType(subscriptionType) {
+	if subscriptionType == nil || !subscriptionType.RequiredFeatures.IsSubsetOf(e.Features) {
 		return nil, newError(e.Operation, "This schema cannot perform subscriptions.")
 	}
 
@@ -198,7 +198,7 @@ func (e *executor) subscribe(initialValue any) (any, *Error) {
 
 func (e *executor) executeSubscriptionEvent(initialValue any) (*OrderedMap, []*Error) {
 	subscriptionType := e.Schema.SubscriptionType()
-	if !schema.IsObjectType(subscriptionType) {
+	if subscriptionType == nil || !subscriptionType.RequiredFeatures.IsSubsetOf(e.Features) {
 		return nil, []*Error{newError(e.Operation, "This schema cannot perform subscriptions.")}
 	}
 	if data, err := wait(e, e.executeSelections(e.Operation.SelectionSet.Selections, subscriptionType, initialValue, nil, false)); err != nil {
